@@ -28,6 +28,7 @@ uint64_t nondet_u64(void) { return 0; }
 uint8_t  nondet_u8(void) { return 0; }
 int64_t  nondet_i64(void) { return 0; }
 bool     nondet_bool(void) { return false; }
+float    nondet_float(void) { return 1.0f; }
 }
 // ---- schedule point: before a mutex acquisition ----
 static bool                  g_armed, g_in_b;
